@@ -37,7 +37,10 @@ fn run_guarded(r: Report, f: impl FnOnce(&Report)) -> i32 {
     if res.is_ok() {
         return r.finish();
     }
-    let (msg, loc, in_library) = crate::isolate::first_panic().unwrap_or_default();
+    let (msg, loc, mut in_library) = crate::isolate::first_panic().unwrap_or_default();
+    // the hand-made entropy models assert that the coder hands them well-formed arguments (a quantile below
+    // 2^PRECISION, ...): such an assertion failing is the library's doing although it is raised in the harness
+    if msg.starts_with("HARNESS-MODEL") { in_library = true; }
     if !in_library {
         eprintln!("MACHINERY: explorer for {} panicked at {loc}: {msg}; no verdict", r.id);
         return 2;
